@@ -9,7 +9,10 @@ pub mod c06;
 pub mod c07;
 pub mod c08;
 pub mod c09;
+pub mod c11;
+pub mod c12;
 pub mod c13;
+pub mod c14;
 pub mod c15;
 pub mod c16;
 pub mod c17;
@@ -18,7 +21,7 @@ pub mod c20;
 pub mod netcode_util;
 
 pub fn all() -> Vec<&'static PropInfo> {
-    vec![&c01::INFO, &c02::INFO, &c03::INFO, &c06::INFO, &c07::INFO, &c08::INFO, &c09::INFO, &c13::INFO, &c15::INFO, &c16::INFO, &c17::INFO, &c19::INFO, &c20::INFO]
+    vec![&c01::INFO, &c02::INFO, &c03::INFO, &c06::INFO, &c07::INFO, &c08::INFO, &c09::INFO, &c11::INFO, &c12::INFO, &c13::INFO, &c14::INFO, &c15::INFO, &c16::INFO, &c17::INFO, &c19::INFO, &c20::INFO]
 }
 
 pub fn find(id: &str) -> Option<&'static PropInfo> {
